@@ -74,13 +74,26 @@ void setStr(strvector *s, size_t i, char *str)
 {
   /*memcpy(s->data[i], str, strlen(str)+1);*/
   //   strcpy(s->data[i], str);
-  xfree(s->data[i]);
-  s->data[i] = strdup(str);
+  if(i < s->size){
+    xfree(s->data[i]);
+    s->data[i] = strdup(str);
+  }
+  else{
+    fprintf(stdout,"setStr Error: vector id %d out of range.\n", (int)i);
+    fflush(stdout);
+    abort();
+  }
 }
 
 char* getStr(strvector *s, size_t i)
 {
-  return s->data[i];
+  if(i < s->size)
+    return s->data[i];
+  else{
+    fprintf(stdout,"getStr Error: vector id %d out of range.\n", (int)i);
+    fflush(stdout);
+    abort();
+  }
 }
 
 void StrVectorAppend(strvector *s, char *str)
